@@ -212,7 +212,7 @@ def shard_section_history(ctx, arg):
 
 
 SETTERS = [("quiet", True), ("quiet", False), ("verbosity", 0), ("verbosity", 1), ("verbosity", 2), ("verbosity", 4),
-           ("stream", "buffer"), ("stream", "null")]
+           ("stream", "buffer"), ("stream", "null"), ("formatter", "plain"), ("formatter", "ansi")]
 
 
 def check_setter_history(ctx, case, by_construction=False):
@@ -235,6 +235,9 @@ def check_setter_history(ctx, case, by_construction=False):
         if name == "quiet":
             obj.set_quiet(value)
             quiet = value
+        elif name == "formatter":
+            # replacing the formatter changes the look, never the gate
+            (obj if hasattr(obj, "set_stream") else obj.output).set_formatter(make_formatter(value))
         elif name == "stream":
             target = obj if hasattr(obj, "set_stream") else obj.output
             if current is not None:
@@ -323,5 +326,5 @@ def run(ctx):
     ctx.parallel("shard_section_history", [(k, o) for k in ("plain", "ansi") for o in options])
     ctx.parallel("shard_setter_history", [(k, f, st_) for k in ("output", "output-section", "buffered-io", "output-from-null") for f in ("plain", "ansi")
                                            for st_ in SETTERS])
-    ctx.exhaustive("setter-history", True, "4 object kinds (one built on a null stream) x formatter x all sequences of 1-4 setter calls over {quiet on/off, verbosity 0/1/2/4, set_stream(buffer / null)}, then a write with every flag word")
+    ctx.exhaustive("setter-history", True, "4 object kinds (one built on a null stream) x formatter x all sequences of 1-4 setter calls over {quiet on/off, verbosity 0/1/2/4, set_stream(buffer / null), set_formatter(plain / ansi)}, then a write with every flag word")
     ctx.exhaustive("section-history", True, "2 sections x all histories of 3 write_line calls over section x flags {None,1,4} x quiet x verbosity {0,4} x formatter")
